@@ -58,8 +58,15 @@ pub fn find(id: &str) -> Option<Prop> {
 }
 
 /// Internal sub-commands (executor children etc.).
-pub fn internal(cmd: &str, _rest: &[String]) -> Option<i32> {
+pub fn internal(cmd: &str, rest: &[String]) -> Option<i32> {
     match cmd {
+        "analyze-raw" => Some(match rest.first().map(|p| c16::analyze_raw(p)) {
+            Some(Ok(())) => 0,
+            other => {
+                eprintln!("{other:?}");
+                2
+            }
+        }),
         "exec-sched" => Some(par::executor_main()),
         "build-probes" => Some(match c20::build_probes() {
             Ok(f) => {
